@@ -24,7 +24,12 @@ def run_one(pid, tier, write=True):
     except ImportError as e:
         print("ANALYSIS-ERROR property=%s no checker module: %s" % (pid, e))
         return 2
-    return execute(pid, lambda run: mod.check(run), tier=tier, write=write)
+    def fn(run):
+        mod.check(run)
+        if tier == "thorough" and not os.environ.get("VERIF_NO_SENS"):
+            from sa.sensitivity import sensitivity
+            sensitivity(run)
+    return execute(pid, fn, tier=tier, write=write)
 
 
 def main(argv=None):
